@@ -7,11 +7,18 @@ type nat =
 
 val option_map : ('a1 -> 'a2) -> 'a1 option -> 'a2 option
 
+val fst : ('a1 * 'a2) -> 'a1
+
 val snd : ('a1 * 'a2) -> 'a2
 
 val length : 'a1 list -> nat
 
 val app : 'a1 list -> 'a1 list -> 'a1 list
+
+type comparison =
+| Eq
+| Lt
+| Gt
 
 val add : nat -> nat -> nat
 
@@ -30,6 +37,8 @@ val nth_error : 'a1 list -> nat -> 'a1 option
 
 val rev : 'a1 list -> 'a1 list
 
+val concat : 'a1 list list -> 'a1 list
+
 val map : ('a1 -> 'a2) -> 'a1 list -> 'a2 list
 
 val flat_map : ('a1 -> 'a2 list) -> 'a1 list -> 'a2 list
@@ -41,6 +50,8 @@ val existsb : ('a1 -> bool) -> 'a1 list -> bool
 val forallb : ('a1 -> bool) -> 'a1 list -> bool
 
 val filter : ('a1 -> bool) -> 'a1 list -> 'a1 list
+
+val combine : 'a1 list -> 'a2 list -> ('a1 * 'a2) list
 
 val firstn : nat -> 'a1 list -> 'a1 list
 
@@ -64,12 +75,47 @@ type z =
 
 module Pos :
  sig
+  type mask =
+  | IsNul
+  | IsPos of positive
+  | IsNeg
+ end
+
+module Coq_Pos :
+ sig
+  val pred_double : positive -> positive
+
+  type mask = Pos.mask =
+  | IsNul
+  | IsPos of positive
+  | IsNeg
+
+  val succ_double_mask : mask -> mask
+
+  val double_mask : mask -> mask
+
+  val double_pred_mask : positive -> mask
+
+  val sub_mask : positive -> positive -> mask
+
+  val sub_mask_carry : positive -> positive -> mask
+
+  val compare_cont : comparison -> positive -> positive -> comparison
+
+  val compare : positive -> positive -> comparison
+
   val eqb : positive -> positive -> bool
  end
 
 module N :
  sig
+  val sub : n -> n -> n
+
+  val compare : n -> n -> comparison
+
   val eqb : n -> n -> bool
+
+  val ltb : n -> n -> bool
  end
 
 module Z :
@@ -186,3 +232,75 @@ val default_document_timeout_ms : n
 val tc_default_markdown : tcfg
 
 val tc_default_cram : tcfg
+
+type exit =
+| Code of z
+| TimedOut
+| ESkipped
+| EDetached
+| Unknown
+| RunnerErr
+
+type rstep = { status : exit; out_ok : bool }
+
+type tcase = { expected : z option; t_skip : z; per_timeout : n option;
+               empty_ok : bool }
+
+type exec_result =
+| ExOk of rstep list
+| ExSkipped of nat
+| ExTimeout of bool * rstep list
+| ExFailed of nat
+
+val cons_res : rstep -> exec_result -> exec_result
+
+val exec : tcase list -> rstep list -> bool list -> nat -> exec_result
+
+type res =
+| Success
+| Failed
+| FailedTimeout
+| RSkipped
+
+val verdict : tcase -> rstep -> res
+
+val zip_with : ('a1 -> 'a2 -> 'a3) -> 'a1 list -> 'a2 list -> 'a3 list
+
+val doc_results :
+  (tcase -> rstep -> res) -> tcase list -> exec_result -> res option list
+
+val is_failure : res option -> bool
+
+val exit_status : res option list list -> z
+
+val effective_limit : n option -> n option -> (n * bool) option
+
+val time_left : n option -> n -> n option
+
+val gs_of : tcase list -> n option -> n list -> bool list
+
+val limits_of : tcase list -> n option -> n list -> n option list
+
+val exec_timed : tcase list -> rstep list -> n option -> n list -> exec_result
+
+val count : (res option -> bool) -> res option list list -> nat
+
+val is_success : res option -> bool
+
+val is_skipped : res option -> bool
+
+val is_reported : res option -> bool
+
+val script_first_stop : rstep list -> rstep option
+
+val find_skip : z -> rstep list -> nat -> nat option
+
+val exec_script : z -> rstep list -> exec_result
+
+val run_docs : (tcase list * exec_result) list -> res option list list * bool
+
+val run_exit : (tcase list * exec_result) list -> z
+
+val run_outcomes : (tcase list * exec_result) list -> res option list list
+
+val stream_ok : n option -> bool -> bool -> bool
